@@ -352,7 +352,7 @@ def observe(ctx, label, fn, inputs, prev_results=(), info=None, probe=True):
                 saved.append((a, a.copy()))
                 a[...] = a + 1
             if saved:
-                moved = diff_snap(s_in, snapshot(inputs, reg))
+                moved = diff_snap(a_in, snapshot(inputs, reg))      # relative to the state right after the call
                 for a, c in saved:
                     a[...] = c
                 for loc, path, kind in moved:
@@ -1016,7 +1016,10 @@ def classify(cat, msg):
 def normalise(msg):
     import re
     head, _, tail = msg.partition(": ")
-    return _last_call(msg).replace(" [repeat]", "") + ": " + re.sub(r"\[[^\]]*\]", "[]", tail).split(" at ")[0]
+    first = head.split("; ")[0]
+    cls = first.split(".")[0].split("-")[0] if "(" not in first.split(".")[0] else first.split("(")[0]
+    meth = _last_call(msg).replace(" [repeat]", "").split(".", 1)[-1]
+    return f"{cls}.{meth}: " + re.sub(r"\[[^\]]*\]", "[]", tail)
 
 
 # ==================================================================================
